@@ -706,6 +706,11 @@ class Observer:
         self.check(p2, att, hist)
 
     def finish(self):
+        try:
+            import printstmt
+            printstmt.close()
+        except BaseException:
+            pass
         if self.tracer:
             self.tracer.close()
         if self.I:
@@ -718,6 +723,24 @@ class Observer:
     def check(self, p2, att, hist):
         ir = p2.INTERNAL_proc()
         op = att["op"]
+        # ---- 0. statement-level tie: the text the real printer produces is the model's ppProc output
+        #         (Props/C17Stmt.lean parse_print_stmt is about that model)
+        try:
+            import printstmt
+            import common as _common
+            r = printstmt.check_proc_full(p2)
+            self.cnt("stmt-tie:" + r["status"])
+            if r["status"] == "skipped":
+                self.cnt("stmt-tie-skip:" + str(r.get("why", "?")).split(" ")[0][:40])
+            elif r["status"] == "mismatch":
+                self.record("tie", "print_stmt", "real printer output differs from the model's ppProc (or the model parser does not read it back): "
+                            + "; ".join(map(str, r["mismatches"][:3]))[:500], att, hist)
+            elif r.get("wf") and r.get("rt") == "ok":
+                self.cnt("stmt-tie:theorem-instances(wf and read back)")
+        except BaseException as e:
+            if isinstance(e, (KeyboardInterrupt, SystemExit, MemoryError)) or type(e).__name__ == "InfraError":
+                raise
+            self.cnt("stmt-tie-exception:" + type(e).__name__)
         # ---- 1. instrumented print
         try:
             text, ops = self.tracer.trace(lambda: str(ir))
